@@ -67,7 +67,7 @@ theorem dblToken_some {t : Bytes} {n : Num} (h : dblTokenOfText t = some n) :
 theorem renders_dbl_text (f : Fl) (level : Nat) (bits : UInt64) (t : Bytes) (h : treeOk fmt (.dbl bits (some t)) = true) :
     Renders fmt f level (.dbl bits (some t)) := by
   simp only [treeOk, Bool.and_eq_true, decide_eq_true_eq] at h
-  obtain ⟨hsome, hlen⟩ := h
+  obtain ⟨⟨_, hsome⟩, hlen⟩ := h
   cases hd : dblTokenOfText t with
   | none => simp [hd] at hsome
   | some n =>
